@@ -55,6 +55,15 @@ def run(cmd, cwd=None, timeout=None, stdin=None, stdout=subprocess.PIPE):
 # ----------------------------------------------------------------------------------------------
 # case files
 
+def proc_cpu_s(pid):
+    """user+system CPU seconds of a process (None if it is gone)"""
+    try:
+        f = open(f"/proc/{pid}/stat").read().rsplit(")", 1)[1].split()
+        return (int(f[11]) + int(f[12])) / os.sysconf("SC_CLK_TCK")
+    except Exception:
+        return None
+
+
 def parse_cases(path):
     """-> list of dict(id, family, ops[], impl[])"""
     cases, cur = [], None
@@ -236,7 +245,12 @@ class Check:
         return True
 
     def gen_bin(self):
-        return os.path.join(TARGET, "release", self.cfg["gen_bin"])
+        """a private copy in the run directory: a concurrent cargo build cannot replace it under a running executor"""
+        src = os.path.join(TARGET, "release", self.cfg["gen_bin"])
+        dst = os.path.join(self.rundir, self.cfg["gen_bin"])
+        if not os.path.exists(dst) or os.path.getmtime(dst) < os.path.getmtime(src):
+            shutil.copy2(src, dst)
+        return dst
 
     def drv_bin(self):
         return os.path.join(LEAN, ".lake", "build", "bin", self.cfg["drv_exe"])
@@ -271,7 +285,7 @@ class Check:
                     pass
                 return None
             last_pos, last_raw, last_t = frm - 1, None, time.time()
-            done, status = False, None
+            done, status, cpu_mark = False, None, None
             while True:
                 try:
                     p.wait(timeout=0.5)
@@ -285,11 +299,24 @@ class Check:
                     done = done or pr[1]
                 if status == "exit":
                     break
-                if time.time() - last_t > hang_s:
-                    p.kill()
-                    p.wait()
-                    status = "hang"
-                    break
+                stalled = time.time() - last_t
+                if stalled > hang_s:
+                    # no case finished for hang_s seconds.  A genuine hang of the code under test burns CPU
+                    # (infinite loop): then it is declared at once.  A process that is merely blocked (writer
+                    # throttling / a starved machine during heavy concurrent builds) uses no CPU: it gets
+                    # 6 x hang_s before it is declared hung (a real deadlock is still reported, later).
+                    cpu = proc_cpu_s(p.pid)
+                    if cpu_mark is None:
+                        cpu_mark = (time.time(), cpu)
+                    busy = cpu is not None and cpu_mark[1] is not None and (cpu - cpu_mark[1]) > 0.5 * max(1.0, time.time() - cpu_mark[0]) \
+                        and time.time() - cpu_mark[0] >= min(10.0, hang_s / 2)
+                    if busy or stalled > 6 * hang_s:
+                        p.kill()
+                        p.wait()
+                        status = "hang"
+                        break
+                else:
+                    cpu_mark = None
             pos = max(last_pos, frm)
             if done and status == "exit" and p.returncode == 0:
                 break
@@ -298,6 +325,10 @@ class Check:
             if c is None:
                 break
             bad += 1
+            if bad > self.cfg.get("max_hangs", 4):
+                # enough evidence: the remaining cases are not executed (each hang costs the full timeout)
+                self.notes.append(f"executor stopped after {bad - 1} hung/aborted cases; {n - pos} cases not executed")
+                break
             with open(out_path, "a") as f:
                 f.write(f"CASE {c['id']} {c['family']}\n")
                 for o in c["ops"]:
